@@ -42,13 +42,21 @@ func (k *c15tok) clearlyValid(secret string, now time.Time) bool {
 	return k.validUnder(secret, now, 0) && k.exp.After(now.Add(2*time.Second)) && !k.iat.After(now) && (k.nbf == nil || !k.nbf.After(now))
 }
 
-// clearly invalid: not valid even if every time comparison is given 15 s of leeway
+// clearly invalid: does not verify under any of the secrets, or is outside its validity by more
+// than the margins (expiry and not-before: 2 s of clock granularity; issued-at: the 10 s of
+// leeway the verifier grants, plus margin)
 func (k *c15tok) clearlyInvalid(secrets []string, now time.Time) bool {
 	for _, s := range secrets {
 		if k.alg != "HS256" && k.alg != "none" && k.mutation == "" && s != "" && k.secret == s {
 			return false // HS384/HS512 with the right key: the statement does not say; no assertion
 		}
-		if k.validUnder(s, now, 15*time.Second) {
+		if k.mutation != "" || k.alg != "HS256" || s == "" || k.secret != s {
+			continue
+		}
+		expired := !k.exp.After(now.Add(-2 * time.Second))
+		early := k.nbf != nil && k.nbf.After(now.Add(2*time.Second))
+		future := k.iat.After(now.Add(15 * time.Second))
+		if !expired && !early && !future {
 			return false
 		}
 	}
@@ -320,6 +328,8 @@ func applyCarriers(req *http.Request, tokens map[string]string) {
 
 func init() {
 	props["C15"] = &propSpec{ID: "C15", Custom: runC15,
-		Rule:       "distinct run digests with at least one attempt carrying a clearly valid token and HDS / clock events in between",
-		NonTrivial: func(r *Result) bool { return r.Triggers["auth_clearly_valid"] > 0 && r.Triggers["auth_clearly_invalid"] > 0 }}
+		Rule: "distinct run digests with at least one attempt carrying a clearly valid token and HDS / clock events in between",
+		NonTrivial: func(r *Result) bool {
+			return r.Triggers["auth_clearly_valid"] > 0 && r.Triggers["auth_clearly_invalid"] > 0
+		}}
 }
